@@ -17,13 +17,26 @@ fails, no txmode directives), every number `t0 ≤ |good|` of files applied by e
 * `dry_run_identity` — with `--dry-run` the command performs no database operation;
 * `schema_apply_all_or_nothing` — `schema apply`: every statement's effect, or the database unchanged.
 
-PARTIAL: per-file txmode directives and the apply-count argument are covered by the correspondence
-run (and `mayCommit`'s repaired per-file decision), not by these theorems; `dry_run_identity` speaks
+* `fail_mixed` — directories whose files carry `-- atlas:txmode` directives (any mix of `file` and `none`
+  files, by the global mode or per file, repaired `mayCommit`): the outcome follows the mode of the FAILING
+  file — rolled back to the last completely applied file if it runs in its own transaction, the successful
+  prefix recorded with the error if it runs without one; `fix_and_rerun_mixed` — after repairing the file
+  the same command reaches the database of a never-failing run, in both cases;
+* `fail_file_mode_count / fail_all_mode_count / fail_none_mode_count`, `count_stops_before_failure` — the
+  apply-count argument: when the failing file is among the `n` files to apply the outcome is the one
+  above; when the `n` files end before it the command succeeds, applies exactly `n` files and does not
+  touch the failing file (via `Atlas.Tx.plan_count`: the command with a count is the count-less command
+  on the directory cut after `n` pending files).
+
+PARTIAL: directives that `modeFor` rejects (`all` per file, a directive under `--tx-mode all`) and the
+pinned-tree `mayCommit` (`fixed = false`) are covered by the correspondence run and by `decide`d
+instances, not by general theorems; `dry_run_identity` speaks
 about the operations of the apply loop: the revision-table bootstrap and the `--baseline` revision,
 which the real command performs before the loop even under `--dry-run`, are outside the model and
 reported by the correspondence run (known findings).
 -/
 import Lemmas.TxFail
+import Lemmas.TxMixed
 import Props.C10
 
 namespace Props.C13
@@ -210,6 +223,186 @@ theorem fix_and_rerun_none (cfg : Cfg) (hm : cfg.mode = .none) (hc : cfg.count =
   rw [this, applyFiles]
   simp [applyFile, hl]
 
+/-! ### directories with `-- atlas:txmode` directives -/
+
+/-- `good` files succeed, statement `j` of `bad` fails; every file runs in `file` or `none` mode, by
+the global mode or by its own directive. -/
+structure MixedFailDir (cfg : Cfg) (good : List TFile) (bad : TFile) (j : Nat) : Prop where
+  good : MixedOk cfg good
+  bad : bad.FailsIn cfg j
+
+/-- **fail_mixed**: the outcome follows the mode of the FAILING FILE, whatever the modes of the files
+before it: a file in its own transaction is rolled back (the database is as after the last completely
+applied file); a file without a transaction keeps its successful prefix, recorded with the error. -/
+theorem fail_mixed (cfg : Cfg) (hfix : cfg.fixed = true) (hc : cfg.count = none) (hd : cfg.dryRun = false)
+    (good : List TFile) (bad : TFile) (j : Nat) (rest : List TFile) (h : MixedFailDir cfg good bad j)
+    (t0 : Nat) (ht0 : t0 ≤ good.length) :
+    let dir := good ++ bad :: rest
+    runAll (after dir t0) (plan cfg dir (after dir t0)).1 =
+      (if modeFor cfg bad = some .file then after dir good.length
+       else failedFile (after dir good.length) j bad.ok.length) ∧
+    (plan cfg dir (after dir t0)).2 = false := by
+  intro dir
+  have hl := after_revs_length_good good (bad :: rest) t0 ht0
+  have hplan : plan cfg dir (after dir t0) = _ := plan_after cfg hc hd dir t0 (by simp [dir]; omega)
+  rw [hplan, drop_good _ _ _ ht0,
+    planFiles_mixed_fail cfg hfix _ bad j h.bad rest _ t0 (fun f hf => h.good f (List.mem_of_mem_drop hf))
+      (by rw [hl]; exact Nat.le_refl _)]
+  refine ⟨?_, rfl⟩
+  unfold runAll St.crash
+  have hb := mblocks_full cfg (good.drop t0) (after dir t0)
+  rw [hl] at hb
+  rw [applyOps_append, hb, applyFiles_after_good good _ t0 ht0]
+  have hg : (after dir good.length).revs.length = t0 + (good.drop t0).length := by
+    rw [after_revs_length_good good _ good.length (Nat.le_refl _)]; simp; omega
+  rw [← hg, mfail_effect]
+
+/-- the repaired directive mix: the failing file replaced by a succeeding one with the same number of
+statements and the same directive; the files behind it succeed. -/
+structure MixedFixed (cfg : Cfg) (bad bad' : TFile) (rest : List TFile) : Prop where
+  ok : ∀ b ∈ bad'.ok, b = true
+  len : bad'.ok.length = bad.ok.length
+  dir : bad'.directive = bad.directive
+  rest : MixedOk cfg rest
+
+theorem mixedOk_fixed {cfg : Cfg} {good : List TFile} {bad bad' : TFile} {j : Nat} {rest : List TFile}
+    (h : MixedFailDir cfg good bad j) (hf : MixedFixed cfg bad bad' rest) : MixedOk cfg (good ++ bad' :: rest) := by
+  have hmode : modeFor cfg bad' = modeFor cfg bad := by simp [modeFor, hf.dir]
+  intro f hmem
+  rcases List.mem_append.mp hmem with hm | hm
+  · exact h.good f hm
+  · rcases List.mem_cons.mp hm with rfl | hm
+    · exact ⟨hf.ok, by rw [hmode]; exact h.bad.mode⟩
+    · exact hf.rest f hm
+
+/-- **fix_and_rerun_mixed**: after replacing the failing file of a directive mix by a succeeding one, the
+same command reaches the database of a run that never failed – whether the failed file had been rolled
+back (own transaction) or had left its recorded prefix (no transaction). -/
+theorem fix_and_rerun_mixed (cfg : Cfg) (hfix : cfg.fixed = true) (hc : cfg.count = none) (hd : cfg.dryRun = false)
+    (good : List TFile) (bad bad' : TFile) (j : Nat) (rest : List TFile) (h : MixedFailDir cfg good bad j)
+    (hf : MixedFixed cfg bad bad' rest) (t0 : Nat) (ht0 : t0 ≤ good.length) :
+    let dir := good ++ bad :: rest
+    let dir' := good ++ bad' :: rest
+    let c := runAll (after dir t0) (plan cfg dir (after dir t0)).1
+    runAll c (plan cfg dir' c).1 = after dir' dir'.length := by
+  intro dir dir' c
+  have hmode : modeFor cfg bad' = modeFor cfg bad := by simp [modeFor, hf.dir]
+  have hg : after dir good.length = after dir' good.length := by
+    rw [after_good _ _ _ (Nat.le_refl _), after_good _ _ _ (Nat.le_refl _)]
+  have hok' := mixedOk_fixed h hf
+  by_cases hm : modeFor cfg bad = some .file
+  · have hc' : c = after dir' good.length := by
+      show runAll _ _ = _
+      rw [(fail_mixed cfg hfix hc hd good bad j rest h t0 ht0).1, if_pos hm, hg]
+    rw [hc']
+    exact (run_mixed cfg hfix hc hd dir' hok' good.length (by simp [dir'])).1
+  · have hmn : modeFor cfg bad' = some .none := by
+      rw [hmode]; rcases h.bad.mode with h' | h'
+      · exact absurd h' hm
+      · exact h'
+    have hc' : c = failedFile (after dir' good.length) j bad'.ok.length := by
+      show runAll _ _ = _
+      rw [(fail_mixed cfg hfix hc hd good bad j rest h t0 ht0).1, if_neg hm, hg, hf.len]
+    rw [hc']
+    have hl : (after dir' good.length).revs.length = good.length := after_revs_length_good good _ _ (Nat.le_refl _)
+    have hjlt : j < bad'.ok.length := by rw [hf.len]; exact h.bad.lt
+    have hps : pendingStart (failedFile (after dir' good.length) j bad'.ok.length) = good.length := by
+      unfold pendingStart failedFile
+      simp only [List.getLast?_concat, if_pos hjlt, List.length_append, List.length_singleton, hl]
+      omega
+    have hdrop : dir'.drop good.length = bad' :: rest := by simp [dir']
+    have hplan : plan cfg dir' (failedFile (after dir' good.length) j bad'.ok.length) =
+        (bodyE good.length bad'.ok.length j true ++ mblocks cfg (good.length + 1) rest, true) := by
+      simp only [plan, hd, hc, limit, hps, hdrop]
+      exact planFiles_mixed_resumeE cfg hfix _ bad' rest good.length j true hf.ok hmn hf.rest
+        (by simp [failedFile, hl])
+        (by have := List.getElem?_concat_length (l := (after dir' good.length).revs) (a := (⟨j, bad'.ok.length, true⟩ : Rev))
+            rw [hl] at this; exact this)
+    rw [hplan]
+    unfold runAll St.crash
+    have heff := resumeE_mixed_effect cfg (after dir' good.length) bad'.ok.length rest j (by omega)
+    rw [hl] at heff
+    rw [heff]
+    have : after dir' dir'.length = applyFiles (after dir' good.length) (bad' :: rest) := by
+      rw [← hdrop, after_all]
+    rw [this, applyFiles]
+    simp [applyFile, hl]
+
+/-! ### the apply-count argument -/
+
+/-- the directory cut behind the failing file: the failing file is among the `n` files to apply. -/
+theorem take_reaches_bad (good : List TFile) (bad : TFile) (rest : List TFile) (t0 n : Nat)
+    (hn : good.length < t0 + n) :
+    (good ++ bad :: rest).take (t0 + n) = good ++ bad :: rest.take (t0 + n - good.length - 1) := by
+  rw [List.take_append, List.take_of_length_le (by omega)]
+  obtain ⟨m, hm⟩ : ∃ m, t0 + n - good.length = m + 1 := ⟨t0 + n - good.length - 1, by omega⟩
+  rw [hm, List.take_succ_cons]
+  simp
+
+/-- **fail_file_mode_count / fail_all_mode_count / fail_none_mode_count**: when the failing file is among
+the `n` files the command is asked to apply, the count changes nothing about the outcome. -/
+theorem fail_file_mode_count (cfg : Cfg) (hm : cfg.mode = .file) (n : Nat) (hc : cfg.count = some n)
+    (hd : cfg.dryRun = false)
+    (good : List TFile) (bad : TFile) (j : Nat) (rest : List TFile) (h : FailDir good bad j)
+    (t0 : Nat) (ht0 : t0 ≤ good.length) (hn : good.length < t0 + n) :
+    let dir := good ++ bad :: rest
+    runAll (after dir t0) (plan cfg dir (after dir t0)).1 = after dir good.length ∧
+    (plan cfg dir (after dir t0)).2 = false := by
+  intro dir
+  rw [plan_count_after cfg n hc dir t0 (by simp [dir]; omega), ← after_take dir (t0 + n) t0 (by omega)]
+  have := fail_file_mode cfg.noCount hm rfl hd good bad j (rest.take (t0 + n - good.length - 1)) h t0 ht0
+  simp only [← take_reaches_bad good bad rest t0 n hn] at this
+  rw [after_take dir (t0 + n) good.length (by omega)] at this
+  exact this
+
+theorem fail_all_mode_count (cfg : Cfg) (hm : cfg.mode = .all) (n : Nat) (hc : cfg.count = some n)
+    (hd : cfg.dryRun = false)
+    (good : List TFile) (bad : TFile) (j : Nat) (rest : List TFile) (h : FailDir good bad j)
+    (t0 : Nat) (ht0 : t0 ≤ good.length) (hn : good.length < t0 + n) :
+    let dir := good ++ bad :: rest
+    runAll (after dir t0) (plan cfg dir (after dir t0)).1 = after dir t0 ∧
+    (plan cfg dir (after dir t0)).2 = false := by
+  intro dir
+  rw [plan_count_after cfg n hc dir t0 (by simp [dir]; omega)]
+  have := fail_all_mode cfg.noCount hm rfl hd good bad j (rest.take (t0 + n - good.length - 1)) h t0 ht0
+  simp only [← take_reaches_bad good bad rest t0 n hn] at this
+  rw [after_take dir (t0 + n) t0 (by omega)] at this ⊢
+  exact this
+
+theorem fail_none_mode_count (cfg : Cfg) (hm : cfg.mode = .none) (n : Nat) (hc : cfg.count = some n)
+    (hd : cfg.dryRun = false)
+    (good : List TFile) (bad : TFile) (j : Nat) (rest : List TFile) (h : FailDir good bad j)
+    (t0 : Nat) (ht0 : t0 ≤ good.length) (hn : good.length < t0 + n) :
+    let dir := good ++ bad :: rest
+    runAll (after dir t0) (plan cfg dir (after dir t0)).1 = failedFile (after dir good.length) j bad.ok.length ∧
+    (plan cfg dir (after dir t0)).2 = false := by
+  intro dir
+  rw [plan_count_after cfg n hc dir t0 (by simp [dir]; omega), ← after_take dir (t0 + n) t0 (by omega)]
+  have := fail_none_mode cfg.noCount hm rfl hd good bad j (rest.take (t0 + n - good.length - 1)) h t0 ht0
+  simp only [← take_reaches_bad good bad rest t0 n hn] at this
+  rw [after_take dir (t0 + n) good.length (by omega)] at this
+  exact this
+
+/-- **count_stops_before_failure** (file / all mode): when the `n` files to apply end before the failing
+file, the command succeeds and applies exactly those `n` files: the failing file is not touched. -/
+theorem count_stops_before_failure (cfg : Cfg) (hm : cfg.mode = .file ∨ cfg.mode = .all) (n : Nat)
+    (hc : cfg.count = some n) (hd : cfg.dryRun = false)
+    (good : List TFile) (bad : TFile) (j : Nat) (rest : List TFile) (h : FailDir good bad j)
+    (t0 : Nat) (hn : t0 + n ≤ good.length) :
+    let dir := good ++ bad :: rest
+    runAll (after dir t0) (plan cfg dir (after dir t0)).1 = after dir (t0 + n) ∧
+    (plan cfg dir (after dir t0)).2 = true := by
+  intro dir
+  have ht0 : t0 ≤ good.length := by omega
+  have hcut : dir.take (t0 + n) = good.take (t0 + n) := by
+    simp only [dir]; rw [List.take_append_of_le_length hn]
+  have hgood : AllOk (good.take (t0 + n)) := allOk_take h.good _
+  have hlen : (good.take (t0 + n)).length = t0 + n := by simp; omega
+  rw [plan_count_after cfg n hc dir t0 (by simp [dir]; omega), ← after_take dir (t0 + n) t0 (by omega), hcut]
+  refine ⟨?_, plan_ok cfg.noCount rfl hd _ hgood t0 (by omega)⟩
+  rw [rerun_file_all cfg.noCount hm rfl hd _ hgood t0 (by omega), hlen, ← hcut,
+    after_take dir (t0 + n) (t0 + n) (Nat.le_refl _)]
+
 /-- **dry_run_identity**: with `--dry-run` the apply loop performs no database operation. -/
 theorem dry_run_identity (cfg : Cfg) (hd : cfg.dryRun = true) (dir : List TFile) (db : Db) :
     (plan cfg dir db).1 = [] ∧ runAll db (plan cfg dir db).1 = db := by
@@ -242,6 +435,29 @@ example : runAll {} (plan { mode := .none } (good2 ++ [badF]) {}).1 =
 example : runAll {} (plan { mode := .file } (good2 ++ [badF]) {}).1 =
     { journal := [(0,0),(0,1)], revs := [⟨2,2,false⟩] } := by decide
 example : runAll {} (plan { mode := .all } (good2 ++ [badF]) {}).1 = {} := by decide
+
+/-- a directive mix: under `--tx-mode none` the first file asks for its own transaction, and so does the
+failing one: it is rolled back (`fail_mixed`, first branch); without its directive it keeps its prefix. -/
+def goodM : List TFile := [{ ok := [true, true], directive := some .file }, { ok := [true] }]
+def badM : TFile := { ok := [true, false, true], directive := some .file }
+
+example : MixedFailDir { mode := .none } goodM badM 1 :=
+  ⟨by intro f hf
+      simp only [goodM, List.mem_cons, List.not_mem_nil, or_false] at hf
+      rcases hf with rfl | rfl
+      · exact ⟨by simp, Or.inl (by decide)⟩
+      · exact ⟨by simp, Or.inr (by decide)⟩,
+   ⟨by decide, by decide, by intro i hi; have : i = 0 := by omega
+                             subst this; rfl, Or.inl (by decide)⟩⟩
+
+example : runAll {} (plan { mode := .none } (goodM ++ [badM]) {}).1 =
+    { journal := [(0,0),(0,1),(1,0)], revs := [⟨2,2,false⟩, ⟨1,1,false⟩] } := by decide
+example : runAll {} (plan { mode := .none } (goodM ++ [{ badM with directive := none }]) {}).1 =
+    { journal := [(0,0),(0,1),(1,0),(2,0)], revs := [⟨2,2,false⟩, ⟨1,1,false⟩, ⟨1,3,true⟩] } := by decide
+/-- `migrate apply 1` / `migrate apply 2` on `good2 ++ [badF]`: one file and success; the failure. -/
+example : plan { mode := .file, count := some 1 } (good2 ++ [badF]) {} = plan { mode := .file } good2 {} ∧
+    (plan { mode := .file } good2 {}).2 = true := by decide
+example : (plan { mode := .file, count := some 2 } (good2 ++ [badF]) {}).2 = false := by decide
 
 /-- the pinned `mayCommit` (global mode) leaves a `txmode file` file under `--tx-mode none`
 uncommitted: the next file hits "locked" and everything of that file is rolled back. -/
